@@ -12,6 +12,9 @@ let parse_ops (t : toks) : op list =
     let push x = ops := x :: !ops in
     (match o with
      | "swp" -> push Swap
+     | "ctn" -> let k = next_nat t in push (CtorN k)
+     | "ctv" -> let k = next_nat t in let x = next_z t in push (CtorNVal (k, x))
+     | "ctr" -> let xs = zl t in push (CtorRange xs)
      | _ ->
        let tg = b t in
        (match o with
@@ -62,6 +65,8 @@ let parse_ops (t : toks) : op list =
         | "fic" -> let x = next_z t in push (FlatInsertCr (tg, x))
         | "fem" -> let x = next_z t in push (FlatEmplace (tg, x))
         | "fek" -> let x = next_z t in push (FlatEraseKey (tg, x))
+        | "fex" -> push (FlatExtract tg)
+        | "frp" -> let xs = zl t in push (FlatReplace (tg, xs))
         | _ -> raise Not_found))
   done;
   List.rev !ops
